@@ -187,14 +187,32 @@ func judgeC13(sc *Scenario, rr *RunResult, env *core.Env) (string, string) {
 	}
 	init := preloadModel(sc, 1)
 	model := linModel(init)
-	ops := historyOps(rr, nil)
-	// the STORE forms are only required not to deadlock and to leave
-	// well-formed values: their reply is not judged (destinations are private)
-	for i := range ops {
-		in := ops[i].Input.(linIn)
+	raw := historyOps(rr, nil)
+	// Only MSET, RENAME, LMOVE and SMOVE are required to be atomic.  The other
+	// multi-key commands (DEL, EXISTS, MGET, set algebra and their STORE forms)
+	// may look at their keys one after another: they are split into one
+	// operation per key over the same interval, whose individual replies are
+	// unknown (the effect of DEL on each key is still applied atomically per key).
+	var ops []porcupine.Operation
+	for _, o := range raw {
+		in := o.Input.(linIn)
 		n := strings.ToLower(string(in.Args[0]))
-		if strings.HasSuffix(n, "store") {
-			ops[i].Output = linOut{Pending: true}
+		switch {
+		case (n == "del" || n == "exists" || n == "mget") && len(in.Args) > 2:
+			single := map[string]string{"del": "del", "exists": "exists", "mget": "get"}[n]
+			for _, k := range in.Args[1:] {
+				p := o
+				p.Input = linIn{Args: [][]byte{[]byte(single), k}, At: in.At}
+				p.Output = linOut{Pending: true}
+				ops = append(ops, p)
+			}
+		case n == "sunion" || n == "sinter" || n == "sdiff":
+			// pure reads of several keys: nothing to apply, reply not judged
+		case strings.HasSuffix(n, "store"):
+			o.Output = linOut{Pending: true}
+			ops = append(ops, o)
+		default:
+			ops = append(ops, o)
 		}
 	}
 	if len(ops) == 0 {
